@@ -751,9 +751,9 @@ def obj_fail(check, desc, cid, v, stage, what):
 
 LEAF_PINS = ['pin_tok_' + n for n in (
     'bin_from_base64', 'bin_to_base64', 'in__parse_datetime_iso_match', 'in_boolean_from_bytes', 'in_byte_array_from_bytes',
-    'in_date_from_unicode', 'in_date_from_unicode_iso', 'in_datetime_from_unicode_iso', 'in_duration_from_unicode',
+    'in_date_from_unicode', 'in_date_from_unicode_iso', 'in_duration_from_unicode',
     'in_integer_from_bytes', 'in_time_from_unicode', 'out__datetime_to_unicode', 'out_boolean_to_unicode',
-    'out_byte_array_to_unicode', 'out_date_to_unicode', 'out_datetime_to_unicode', 'out_duration_to_unicode',
+    'out_byte_array_to_unicode', 'out_date_to_unicode', 'out_datetime_to_unicode',
     'out_integer_to_unicode', 'out_time_to_unicode')] + ['pin_val_fmt_' + n for n in (
     'DateTime_dt_format', 'DateTime_out_format', 'DateTime_string_format', 'Date_date_format', 'Time_time_format')]
 
@@ -811,7 +811,7 @@ def run(check):
             return True
         return orig_fail(key, what, replay)
     check.fail = limited_fail
-    check.regen(['numtypes', 'xmlwire', 'tokens'])
+    check.regen(['numtypes', 'xmlwire', 'tokens', 'c08sem'])
     check.check_sources()
     check.prove('Props.C01', THEOREMS)
     check.prove('Props.C01_x', THEOREMS_X)
@@ -820,6 +820,9 @@ def run(check):
     # the functions behind the eight leaf kinds used here, regenerated from the source (Gen/Tokens.v), are pinned to
     # what those models transcribe (C08/Pins.v) in this run as well
     check.prove('C08.Pins', LEAF_PINS)
+    # the datetime reader and the duration printer are translated semantically (translate/c08sem.py) and proved equal
+    # to the models for all inputs
+    check.prove('Props.C08_sem', ['C08_sem_datetime_reader', 'C08_sem_duration_printer'])
     import time
     t0 = time.time()
     for name, fn in (('wire objects', c01_wire.corr_objects), ('x objects', corr_objects_x), ('calls', corr_calls),
